@@ -42,6 +42,9 @@ def mmul(m1, m2):
     return tuple(sorted(d.items()))
 
 
+SQRT_ARG = {}  # atom index -> (num, den) of the argument of a SQRT atom (set by a Normaliser with sqrt_squares)
+
+
 def pmul(p, q):
     if len(p) > len(q):
         p, q = q, p
@@ -75,7 +78,9 @@ class TooBig(Exception):
 
 
 class Normaliser:
-    def __init__(self, max_monomials=4000):
+    def __init__(self, max_monomials=4000, sqrt_squares=False):
+        self.sqrt_squares = sqrt_squares  # rewrite SQRT(x)^2 -> x (sound where x >= 0, which the caller assumes)
+        self.sqrt_arg = {}
         self.atoms = {}  # key -> index
         self.atom_term = []  # index -> representative z3 term
         self.cache = {}
@@ -137,7 +142,10 @@ class Normaliser:
                 return self.atom(('v', t.decl().name()), t)
             args = [self.norm(c) if z3.is_arith(c) else None for c in ch]
             key = ('f', t.decl().name(), tuple(self.key(a) if a is not None else c.sexpr() for a, c in zip(args, ch)))
-            return self.atom(key, t)
+            r = self.atom(key, t)
+            if self.sqrt_squares and t.decl().name() == 'SQRT':
+                self.sqrt_arg[self.atoms[key]] = args[0]
+            return r
         if kind == z3.Z3_OP_ADD:
             n, d = ZERO, ONE
             for c in ch:
@@ -188,6 +196,33 @@ class Normaliser:
                 return (n, d)
         return self.atom(('opaque', t.sexpr()), t)
 
+    def reduce_sqrt(self, p):
+        """replace atom^k (k >= 2) of SQRT atoms by the argument (polynomial arguments only)"""
+        if not self.sqrt_arg:
+            return p, ONE
+        changed = True
+        den = ONE
+        while changed:
+            changed = False
+            out = {}
+            for m, c in p.items():
+                hit = None
+                for a, k in m:
+                    if a in self.sqrt_arg and k >= 2 and self.sqrt_arg[a][1] == ONE:
+                        hit = (a, k)
+                        break
+                if hit is None:
+                    out[m] = out.get(m, 0) + c
+                    continue
+                changed = True
+                a, k = hit
+                rest = tuple((x, y) for x, y in m if x != a) + (((a, k - 2),) if k - 2 else ())
+                rest = tuple(sorted(rest))
+                for m2, c2 in pmul({rest: c}, self.sqrt_arg[a][0]).items():
+                    out[m2] = out.get(m2, 0) + c2
+            p = {m: c for m, c in out.items() if c}
+        return p, den
+
     def cancel(self, n, d):
         """cancel common monomial factors and scalar of a single-monomial denominator"""
         if not n:
@@ -237,6 +272,8 @@ class Normaliser:
         an, ad = self.norm(a)
         bn, bd = self.norm(b)
         num = padd(pmul(an, bd), pmul(bn, ad), -1)
+        if self.sqrt_squares:
+            num, _ = self.reduce_sqrt(num)
         return num, [ad, bd]
 
 
